@@ -7,7 +7,7 @@
 #include <gmssl/sm3.h>
 
 #ifdef VERIF_CBMC
-size_t G_sk;
+size_t G_sk; unsigned G_seq;
 size_t G_hu_fed; uint8_t G_hu_byte; unsigned G_hu_calls; size_t G_hu_ctx; unsigned G_hu_seq;
 int G_hu_iv_seen;                                              /* some update call was given exactly the 16 iv bytes */
 size_t G_iv_ptr;                                               /* set by the harness: address of the iv argument */
@@ -37,6 +37,7 @@ ASSIGNS(OBJ_UPTO((uint8_t *)ctx, sizeof(SM3_HMAC_CTX)), OBJ_UPTO(mac, 32), G_hf_
 ENSURES(G_hf_calls == OLD(G_hf_calls) + 1 && G_hf_out == mac[verif_gk] && G_hf_ctx == (size_t)ctx && G_seq == OLD(G_seq) + 1 && G_hf_seq == G_seq)
 ;
 
+#ifndef AE_ENC_ONLY
 int AE_DEC_INIT(AE_ENC_CTX_T *ctx, const uint8_t key[16], const uint8_t iv[16])
 REQUIRES(WR_OK(ctx, sizeof(AE_ENC_CTX_T)) && RD_OK(key, 16) && RD_OK(iv, 16))
 ASSIGNS(OBJ_UPTO((uint8_t *)ctx, sizeof(AE_ENC_CTX_T)), G_di_calls, G_di_key, G_di_iv, G_di_ctx)
@@ -99,6 +100,8 @@ ENSURES(RET == 1 IMPLIES (G_df_calls == 1 && G_df_ret == 1 && G_df_out == (size_
 ENSURES((ctx != NULL && out != NULL && outlen != NULL && OLD(ctx->maclen) == 32 && G_df_ret == 1 && G_mcmp_calls == 1 && G_mcmp_last == 0) IMPLIES RET == 1)
 ;
 
+#endif /* AE_ENC_ONLY */
+
 #ifdef AE_WITH_UPDATE
 /* inner CTR stream (same shape as sm4_ctr32_encrypt_update): consumes inlen bytes, emits whole blocks */
 int AE_DEC_UPDATE(AE_ENC_CTX_T *ctx, const uint8_t *in, size_t inlen, uint8_t *out, size_t *outlen)
@@ -156,5 +159,60 @@ ENSURES((RET == 1 && AE_TOTAL(ctx) > 32) IMPLIES (ctx->maclen == 32 && G_hu_fed 
 	&& AE_CONTENT(ctx->mac[verif_gk] == AE_S(ctx, AE_FED(ctx) + verif_gk))
 	&& G_du_out0 == (size_t)out && G_du_chain_ok == 1 && *outlen == G_du_written
 	&& *outlen == ((OLD(ctx->enc_ctx.block_nbytes) + AE_FED(ctx)) / 16) * 16))
+;
+#endif
+
+#ifdef AE_WITH_ENCRYPT
+/* encryption side: encrypt-then-MAC — the MAC stream receives the CIPHERTEXT that was written, after it was produced, and the
+   tag is the HMAC output appended behind the last ciphertext bytes */
+#ifdef VERIF_CBMC
+unsigned G_eu_calls; int G_eu_ret; size_t G_eu_in; size_t G_eu_inlen; size_t G_eu_out; size_t G_eu_outlen; size_t G_eu_ctx; unsigned G_eu_seq;
+unsigned G_ef_calls; int G_ef_ret; size_t G_ef_out; size_t G_ef_outlen; size_t G_ef_ctx; unsigned G_ef_seq;
+#endif
+int AE_ENC_UPDATE(AE_ENC_CTX_T *ctx, const uint8_t *in, size_t inlen, uint8_t *out, size_t *outlen)
+REQUIRES(RW_OK(ctx, sizeof(AE_ENC_CTX_T)) && in != NULL && out != NULL && inlen <= (size_t)1 << 32 && (inlen == 0 || RD_OK(in, inlen)) && WR_OK(outlen, sizeof(size_t)))
+REQUIRES(inlen == 0 || WR_OK(out, 16 * ((inlen + 15) / 16)))
+ASSIGNS(OBJ_UPTO((uint8_t *)ctx, sizeof(AE_ENC_CTX_T)), OBJ_UPTO((uint8_t *)outlen, sizeof(size_t)); inlen != 0: OBJ_WHOLE(out); G_eu_calls, G_eu_ret, G_eu_in, G_eu_inlen, G_eu_out, G_eu_outlen, G_eu_ctx, G_eu_seq, G_seq)
+ENSURES((RET == 1 || RET == -1) && G_eu_calls == OLD(G_eu_calls) + 1 && G_eu_ret == RET && G_eu_in == (size_t)in && G_eu_inlen == inlen && G_eu_out == (size_t)out && G_eu_ctx == (size_t)ctx
+	&& G_seq == OLD(G_seq) + 1 && G_eu_seq == G_seq)
+ENSURES(RET == 1 IMPLIES (*outlen <= 16 * ((inlen + 15) / 16) && G_eu_outlen == *outlen))
+;
+int AE_ENC_FINISH(AE_ENC_CTX_T *ctx, uint8_t *out, size_t *outlen)
+REQUIRES(RW_OK(ctx, sizeof(AE_ENC_CTX_T)) && WR_OK(out, 16) && WR_OK(outlen, sizeof(size_t)))
+ASSIGNS(OBJ_UPTO((uint8_t *)ctx, sizeof(AE_ENC_CTX_T)), OBJ_UPTO(out, 16), OBJ_UPTO((uint8_t *)outlen, sizeof(size_t)), G_ef_calls, G_ef_ret, G_ef_out, G_ef_outlen, G_ef_ctx, G_ef_seq, G_seq)
+ENSURES((RET == 1 || RET == -1) && G_ef_calls == OLD(G_ef_calls) + 1 && G_ef_ret == RET && G_ef_out == (size_t)out && G_ef_ctx == (size_t)ctx && G_seq == OLD(G_seq) + 1 && G_ef_seq == G_seq)
+ENSURES(RET == 1 IMPLIES (*outlen <= 16 && G_ef_outlen == *outlen))
+;
+
+int AE(encrypt_update)(AE_CTX_T *ctx, const uint8_t *in, size_t inlen, uint8_t *out, size_t *outlen)
+REQUIRES(ctx == NULL || RW_OK(ctx, sizeof(AE_CTX_T)))
+REQUIRES(in == NULL || inlen == 0 || (inlen <= (size_t)1 << 32 && RD_OK(in, inlen)))
+REQUIRES(outlen == NULL || WR_OK(outlen, sizeof(size_t)))
+REQUIRES(out == NULL || inlen == 0 || WR_OK(out, 16 * ((inlen + 15) / 16)))
+REQUIRES(ctx == NULL || (SEPARATE(ctx, in) && SEPARATE(ctx, out) && SEPARATE(ctx, outlen)))
+REQUIRES(SEPARATE(outlen, out) && SEPARATE(outlen, in) && G_seq == 0 && G_eu_calls == 0 && G_hu_calls == 0 && G_hu_fed == 0 && G_sk < ((size_t)1 << 40))
+ASSIGNS(ctx != NULL: OBJ_UPTO((uint8_t *)ctx, sizeof(AE_CTX_T)); outlen != NULL: OBJ_UPTO((uint8_t *)outlen, sizeof(size_t)); out != NULL && inlen != 0: OBJ_WHOLE(out);
+	G_seq, G_eu_calls, G_eu_ret, G_eu_in, G_eu_inlen, G_eu_out, G_eu_outlen, G_eu_ctx, G_eu_seq, G_hu_fed, G_hu_byte, G_hu_calls, G_hu_ctx, G_hu_seq, G_hu_iv_seen)
+ENSURES(RET == 1 || RET == -1)
+ENSURES((ctx == NULL || in == NULL || out == NULL || outlen == NULL) IMPLIES RET == -1)
+ENSURES(RET == 1 IMPLIES (G_eu_calls == 1 && G_eu_ret == 1 && G_eu_in == (size_t)in && G_eu_inlen == inlen && G_eu_out == (size_t)out && G_eu_ctx == (size_t)&ctx->enc_ctx && *outlen == G_eu_outlen
+	&& G_hu_calls == 1 && G_hu_ctx == (size_t)&ctx->mac_ctx && G_hu_fed == *outlen && G_hu_seq > G_eu_seq && (G_sk < *outlen IMPLIES G_hu_byte == out[G_sk])))
+;
+
+int AE(encrypt_finish)(AE_CTX_T *ctx, uint8_t *out, size_t *outlen)
+REQUIRES(ctx == NULL || RW_OK(ctx, sizeof(AE_CTX_T)))
+REQUIRES(outlen == NULL || WR_OK(outlen, sizeof(size_t)))
+/* last block (at most 16 bytes) plus the 32-byte tag */
+REQUIRES(out == NULL || WR_OK(out, 48))
+REQUIRES(ctx == NULL || (SEPARATE(ctx, out) && SEPARATE(ctx, outlen)))
+REQUIRES(SEPARATE(outlen, out) && G_seq == 0 && G_ef_calls == 0 && G_hu_calls == 0 && G_hu_fed == 0 && G_hf_calls == 0 && G_sk < 16 && verif_gk < 32)
+ASSIGNS(ctx != NULL: OBJ_UPTO((uint8_t *)ctx, sizeof(AE_CTX_T)); outlen != NULL: OBJ_UPTO((uint8_t *)outlen, sizeof(size_t)); out != NULL: OBJ_UPTO(out, 48);
+	G_seq, G_ef_calls, G_ef_ret, G_ef_out, G_ef_outlen, G_ef_ctx, G_ef_seq, G_hu_fed, G_hu_byte, G_hu_calls, G_hu_ctx, G_hu_seq, G_hu_iv_seen, G_hf_calls, G_hf_out, G_hf_ctx, G_hf_seq)
+ENSURES(RET == 1 || RET == -1)
+ENSURES((ctx == NULL || out == NULL || outlen == NULL) IMPLIES RET == -1)
+ENSURES(RET == 1 IMPLIES (G_ef_calls == 1 && G_ef_ret == 1 && G_ef_out == (size_t)out && G_ef_ctx == (size_t)&ctx->enc_ctx
+	&& G_hu_calls == 1 && G_hu_fed == G_ef_outlen && G_hu_seq > G_ef_seq && (G_sk < G_ef_outlen IMPLIES G_hu_byte == out[G_sk])
+	&& G_hf_calls == 1 && G_hf_ctx == (size_t)&ctx->mac_ctx && G_hf_seq > G_hu_seq
+	&& *outlen == G_ef_outlen + 32 && out[G_ef_outlen + verif_gk] == G_hf_out))
 ;
 #endif
